@@ -22,7 +22,8 @@ E == T[l]
 
 TInit == /\ tid \in 1..NTraces /\ l = 1
          /\ LET c == Traces[tid][1].cfg IN
-            /\ cfg = c /\ bar = NewBar(TMax(0, c.max0), TMax(c.mingap, c.maxgap)) /\ sec = [content |-> <<>>, lines |-> 0]
+            /\ cfg = c /\ bar = NewBar(TMax(0, c.max0), TMax(c.mingap, c.maxgap))
+            /\ sec = [content |-> c.secpre, lines |-> SumRows(c.secpre)]
             /\ term = TermNew(c.w)
             /\ shown = NoFrame /\ sinceAdv = -1 /\ plog = <<>>
             /\ last = [op |-> "none", arg |-> 0, dt |-> 0, gap |-> -1, frames |-> <<>>, ops |-> <<>>, exc |-> "",
@@ -54,7 +55,7 @@ TStart == /\ l = 1 /\ Is("new") /\ Adv
           /\ bar' = [bar EXCEPT !.msg = E.msg]
           /\ UNCHANGED <<cfg, sec, shown, sinceAdv, plog>>
           /\ Check(tid, l, "P.completes", E.exc, E.exc = "")
-          /\ Check(tid, l, "H.init", "", OnlyPlain(E.ops) /\ Screen(term') = Visible(FoldAll(cfg.pre, cfg.w)))
+          /\ Check(tid, l, "H.init", "", OnlyPlain(E.ops) /\ Screen(term') = Visible(FoldAll(cfg.pre \o cfg.secpre, cfg.w)))
 
 \* set_message: not expected to write (A-clause); if an implementation redraws here, the frames count like any other
 TMsg == /\ l > 1 /\ Is("msg") /\ Adv
@@ -120,6 +121,7 @@ TCall == /\ l > 1 /\ l <= Len(T) /\ E.op \in Ops /\ Adv
               /\ Check(tid, l, "P.throttle", "", ThrottleOK')
               /\ Check(tid, l, "P.max.draws", "", MaxDraws')
               /\ Check(tid, l, "P.finish", FinishKey, FinishOK')
+              /\ Check(tid, l, "P.finish", "progress-taken-back", FinishEnds')
               /\ Check(tid, l, "P.ansi.line", Where, AnsiLine')
               /\ Check(tid, l, "P.plain.ownline", OwnLineKey, PlainOwnLine')
               /\ Note(tid, l, "A.draws", Len(E.frames) = Len(r.frames))
